@@ -417,14 +417,29 @@ def crossfit_part(ctx, fails):
     from sklearn.linear_model import LogisticRegression, LinearRegression
     import zepid.causal.doublyrobust as dr
     from zepid.causal.doublyrobust.crossfit import calculate_joint_estimate
+    import zepid.causal.doublyrobust.crossfit as CFM
     n = 1 if ctx.quick else 6
     for i in range(n):
         for cname, ks in (('SingleCrossfitAIPTW', 2), ('DoubleCrossfitAIPTW', 3), ('SingleCrossfitTMLE', 2), ('DoubleCrossfitTMLE', 3)):
             otype = 'binary' if (i + ks) % 2 == 0 or ctx.quick else 'normal'
-            df, meta = datagen.mixed_frame(ctx.rng, n=ctx.rng.randint(90, 140), outcome=otype)
+            nrows = ctx.rng.randint(90, 140)
+            if nrows % ks == 0:
+                nrows += 1          # parts of unequal size: the left-over rows go to the last part
+            df, meta = datagen.mixed_frame(ctx.rng, n=nrows, outcome=otype)
             payload = {'part': 'crossfit', 'class': cname, 'data': df.to_dict('list'), 'meta': meta}
             method = ctx.rng.choice(['median', 'mean'])
             per_rd, per_rr = {}, {}
+            calls = []
+            orig_calc = CFM.aipw_calculator
+
+            def spy_calc(*a_, **k_):
+                r_ = orig_calc(*a_, **k_)
+                names = ['y', 'a', 'py_a', 'py_n', 'pa1', 'pa0', 'difference', 'weights', 'splits']
+                kw = dict(zip(names, a_))
+                kw.update(k_)
+                calls.append((kw, r_))
+                return r_
+            CFM.aipw_calculator = spy_calc
             try:
                 for a in ALPHAS[:4]:
                     o = getattr(dr, cname)(df, 'A', 'Y', alpha=a)
@@ -439,6 +454,26 @@ def crossfit_part(ctx, fails):
             except Exception as e:   # noqa
                 fails.append((len(df), '%s.fit.raises' % cname, '%s raised %s: %s' % (cname, type(e).__name__, str(e)[:120]), payload))
                 continue
+            finally:
+                CFM.aipw_calculator = orig_calc
+            # per-partition variance of the cross-fit AIPTW difference: mean over the parts of the within-part variance (ddof=1) of
+            # the influence values (centred at the overall estimate), over n -- recomputed from what aipw_calculator was handed
+            for kw, (est_, var_) in calls:
+                if not kw.get('difference', True) or kw.get('splits') is None or kw.get('weights') is not None:
+                    continue
+                y_, a_, q1_, q0_, g1_, g0_ = (np.asarray(kw[k], dtype=float) for k in ('y', 'a', 'py_a', 'py_n', 'pa1', 'pa0'))
+                sp_ = np.asarray(kw['splits'])
+                y1_ = np.where(a_ == 1, (y_ - q1_ * (1 - g1_)) / g1_, q1_)
+                y0_ = np.where(a_ == 0, (y_ - q0_ * (1 - g0_)) / g0_, q0_)
+                ic_ = (y1_ - y0_) - est_
+                ref_ = float(np.mean([np.var(ic_[sp_ == s_], ddof=1) for s_ in sorted(set(sp_.tolist()))]) / len(y_))
+                ctx.disagreements_checked += 1
+                ctx.count('crossfit AIPTW partition variance recomputed (part sizes %s)' % ('unequal' if len(set(np.bincount(sp_.astype(int))[np.bincount(sp_.astype(int)) > 0].tolist())) > 1 else 'equal'))
+                if not (abs(float(var_) - ref_) <= 1e-10 * max(1.0, abs(ref_))):
+                    fails.append((len(df), cname + '.partition-variance', '%s: aipw_calculator returned variance %r for a partition with part sizes %s; the '
+                                  'mean over parts of the within-part influence-value variance over n is %r'
+                                  % (cname, float(var_), np.bincount(sp_.astype(int)).tolist(), ref_), payload))
+                    break
             ctx.evaluations += 1
             ctx.programs += 1
             ctx.count('site:' + cname)
